@@ -142,8 +142,18 @@ class SSHChannel(log.Logger):
         if self.extBuf:
             b = self.extBuf
             self.extBuf = []
-            for type, data in b:
-                self.writeExtended(type, data)
+            # While the entries are held here loseConnection() sees empty
+            # buffers, so a pending close must wait until all of them have
+            # been handed back to writeExtended().
+            closing = self.closing
+            self.closing = False
+            try:
+                for type, data in b:
+                    self.writeExtended(type, data)
+            finally:
+                self.closing = closing
+            if closing:
+                self.loseConnection()  # try again
 
     def requestReceived(self, requestType, data):
         """
